@@ -65,7 +65,7 @@ def run(pid, cfg, tier, seed, arkh, tmp):
         out = gotests(pid, sp, tier, seed)
         wiring(pid, out, tmp)
         return out
-    if sp in ("race", "codec", "registry"):
+    if sp in ("race", "codec", "registry", "gcsafe"):
         return gotests(pid, sp, tier, seed)
     return None
 
@@ -278,7 +278,7 @@ def probes(pid, out, tag_sets):
 def gotests(pid, sp, tier, seed):
     """Go-side differential / oracle tests that live in /verif/harness/<pkg> (rebuilt against /repo)."""
     out = dict(coverage={}, samples=[], violations=[])
-    pkg = {"race": "./conc", "codec": "./codec", "registry": "./registry", "typed": "./typed"}[sp]
+    pkg = {"race": "./conc", "codec": "./codec", "registry": "./registry", "typed": "./typed", "gcsafe": "./gcsafe"}[sp]
     if not os.path.isdir(os.path.join(L.HARNESS, pkg[2:])):
         return out
     env = dict(L.ENV, VERIF_SEED=str(seed), VERIF_TIER=tier)
